@@ -159,6 +159,10 @@ def S8():
                             ("decl", "Signal", "r2", B(op, V("c"), ("lit", t, I(3))))], ["r1", "r2"])
     yield mk("S8", [("decl", "Signal", "k1", ("lit", "signal-C", I(2))), ("decl", "Signal", "k2", ("lit", "signal-C", I(3))),
                     ("decl", "Signal", "r1", B("*", V("k1"), V("a"))), ("decl", "Signal", "r2", B("*", V("k2"), V("a")))], ["r1", "r2"])
+    # two results sharing both inputs (an arithmetic chain and a conditional copy)
+    yield mk("S8", [("decl", "Signal", "r1", B("+", B("*", V("c"), V("d")), V("a"))),
+                    ("decl", "Signal", "r2", ("cond", B(">", V("c"), V("d")), V("a")))], ["r1", "r2"])
+    yield mk("S8", [("decl", "Signal", "r1", B("*", V("c"), V("d"))), ("decl", "Signal", "r2", B(">", V("c"), V("d")))], ["r1", "r2"])
     yield mk("S8", [("decl", "Signal", "r1", B("*", V("c"), V("a"))), ("decl", "Signal", "r2", B("*", V("d"), V("a"))),
                     ("decl", "Signal", "r3", B("-", V("a"), V("c")))], ["r1", "r2", "r3"])
 
